@@ -188,6 +188,45 @@ def inv_rewire(converter, rewiring, records: list[Record], _i, _xs, _pre):
                                   _pre(P(_xs[k])), _pre(U(_xs[k])), _pre(_xs[k].uri_prefix_synonyms), records[k], rewiring, _pre(P(_xs[k]))) for k in range(_i)))
 
 
+@lemma("C12.remap_uri_keeps_every_uri", props=["C12"])
+def l_c12_remap_keeps(conv: Converter, remapping: dict[str, str], u: str):
+    """Over the contracts of remap_uri_prefixes and is_uri: every record keeps all URI prefixes it had, so every URI the
+    converter recognised is still recognised afterwards."""
+    requires(WF(conv) and injective(remapping))
+    requires(not any(k in remapping.values() for k in remapping))
+    was = conv.is_uri(u)
+    out = remap_uri_prefixes(conv, remapping)
+    assert len(out.records) == len(conv.records)
+    if was:
+        assert out.is_uri(u)
+
+
+@lemma("C12.remap_uri_keeps_curie_prefixes", props=["C12"])
+def l_c12_remap_names(conv: Converter, remapping: dict[str, str], p: str):
+    """... and every CURIE prefix or synonym it knew is still known (the converse — nothing is invented — needs a counting
+    argument over `len(result.records) == len(converter.records)` and is left to the bounded stand-in of the contract)."""
+    requires(WF(conv) and injective(remapping))
+    requires(not any(k in remapping.values() for k in remapping))
+    was = known(conv, p)
+    out = remap_uri_prefixes(conv, remapping)
+    if was:
+        assert known(out, p)
+
+
+@lemma("C12.rewire_keeps_every_uri_and_name", props=["C12"])
+def l_c12_rewire_keeps(conv: Converter, rewiring: dict[str, str], u: str, p: str):
+    """The same two statements over the contract of rewire."""
+    requires(WF(conv) and injective(rewiring) and one_key_per_record(conv, rewiring))
+    was_uri = conv.is_uri(u)
+    was_known = known(conv, p)
+    out = rewire(conv, rewiring)
+    assert len(out.records) == len(conv.records)
+    if was_uri:
+        assert out.is_uri(u)
+    if was_known:
+        assert known(out, p)
+
+
 @lemma("C12.rewire_idempotent", props=["C12"], bounded_only="two-call composition compared on whole-converter state; per-call behaviour is the contract of rewire")
 def l_c12_idempotent(conv: Converter, rewiring: dict):
     requires(WF(conv))
